@@ -341,6 +341,16 @@ def t10_woff(run, fx):
         run.ok(rule, "inflate is reached only on the true edge of is_compressed()")
     else:
         run.fail(rule, "woff:inflate-guard", "the inflate path is not controlled exactly by is_compressed()", "%s:%s" % (b.file, b.line))
+    # the whole stream is inflated: read_to_end on the decoder itself, no length-limiting adaptor that would cut the table short silently
+    rte = [(bi, t) for bi, t in b.calls() if (t["callee"].get("path") or "").endswith("Read::read_to_end")]
+    for bi, t in rte:
+        recv = prov.op(t["args"][0])
+        lim = [x for x in sym.walk(recv) if x[0] == "call" and (x[4] or x[1] or "").endswith(("Read::take", "::take", "Read::by_ref", "Read::chain"))]
+        if lim:
+            run.fail(rule, "woff:inflate-limited", "read_table inflates through %s: a table longer than the limit is returned truncated instead of "
+                     "whole or as an error" % (lim[0][4] or lim[0][1]).split("::")[-1], b.loc(t))
+        else:
+            run.ok(rule, "read_table inflates the whole stream (read_to_end on the decoder itself)")
 
 
 SFNT_MAGICS = {0x00010000: "0x00010000", 0x74727565: "'true'", 0x4F54544F: "'OTTO'"}
